@@ -60,8 +60,11 @@ package executor
 //@   ensures [last-write-wins] err == nil ==> forall j :: 0 <= j && j < len(txs) && (forall l :: j < l && l < len(txs) ==> TxKey(val(txs[l])) != TxKey(val(txs[j]))) ==> k.db.kv[TxKey(val(txs[j]))] == TxVal(val(txs[j]))
 //@   ensures [others-untouched] err == nil ==> forall key :: (forall j :: 0 <= j && j < len(txs) ==> TxKey(val(txs[j])) != key) ==> k.db.kv[key] == old(k.db.kv)[key] && k.db.kvHas[key] == old(k.db.kvHas)[key]
 
+// (C04/C05: until the node has recorded its first state every start-up calls InitChain again - after a crash
+// in the first block on an application database that already holds that block's writes: it has to answer with
+// the recorded genesis root, not with the root of what the database holds now)
 //@ func (k *KVExecutor) InitChain(ctx, genesisTime, initialHeight, chainID) (root, maxBytes, err)
-//@   property C15
+//@   property C15 C05:init-idempotent C04:init-idempotent
 //@   requires [wiring] k.db != nil
 //@   observe csr := call computeStateRoot
 //@   observe cm := call Commit
